@@ -68,8 +68,9 @@ def run_concurrent(world, commands, rng=None, choices=None, policy="random", fau
     parties = {}
     for label, argv, cwd, extra in commands:
         env = world.env(dict(extra or {}, GIT_AI_VERIF_SOCK=sock_path, GIT_AI_VERIF_LABEL=label))
+        from .world import PREEXEC
         p = subprocess.Popen(argv, cwd=cwd, env=env, stdin=subprocess.DEVNULL, stdout=subprocess.PIPE,
-                             stderr=subprocess.PIPE, start_new_session=True)
+                             stderr=subprocess.PIPE, start_new_session=True, preexec_fn=PREEXEC)
         parties[label] = Party(label, p)
     schedule = []
     steps = 0
